@@ -12,7 +12,7 @@ from vf.strategies import uniform_int
 P = B.P
 RULE = ("points -> words -> points: Hypothesis-constructed points of E(Fp) and E'(Fp2) (kG, random "
         "curve points, cofactor torsion, small-order points incl. (0,+-2), G2 points with purely real / "
-        "purely imaginary y, G1 points with y next to (p-1)/2, infinity in five representations) under "
+        "purely imaginary y, G1 points with y next to (p-1)/2, G2 points with y_im (or y_re when y_im = 0) exactly (p-1)/2 and (p+1)/2 built with an Fp2 cube root, infinity in five representations) under "
         "random projective scalings: compress == model encoder, decompress(compress(P)) == P, byte "
         "helpers give 48/96 bytes; words -> points -> words: the full grid 8 flag combinations x "
         "x in {0,1,2,p-1,p,p+1,2^381-1,on-curve,off-curve,x+p} (G2: x second-word variants) enumerated "
@@ -25,7 +25,7 @@ ASSUMPTIONS = ["the ZCash format as written in vf/model/bls12381.py (sign = lexi
                "nine Ethereum signatures / three public keys",
                "words are 384-bit non-negative integers (other lengths are C04's domain)"]
 ENGINE = "hypothesis + exhaustive flag/value grids"
-_REQ = ["rt:G1:non_subgroup", "rt:G2:non_subgroup", "rt:G2:y_im=0", "rt:G2:y_re=0", "rt:G1:y_at_boundary",
+_REQ = ["rt:G1:non_subgroup", "rt:G2:non_subgroup", "rt:G2:y_im=0", "rt:G2:y_re=0", "rt:G1:y_at_boundary", "rt:G2:y_at_boundary",
         "rt:G1:inf", "rt:G2:inf", "rt:G1:scaled", "rt:G2:scaled", "word:G1:accept", "word:G2:accept",
         "word:G1:reject:x>=p", "word:G2:reject:x1>=p", "word:G2:reject:x0>=p",
         "word:G2:reject:flags_in_second_word", "word:G1:reject:not_on_curve", "word:G2:reject:not_on_curve",
